@@ -276,10 +276,29 @@ def api_work(chunk):
                 bad = c10.equivalent(LA, LB, res, declared=names)
                 if bad:
                     res['fails'].append(dict(tag, ob='api-constant-door-model-differs', direction=bad[0], point=bad[1]))
+            # the staged pipe runner given the same constants through its PipeContext: the stages it completes must
+            # be the ones the reference text completes, with an equivalent compiled model
+            lp = (op.get('lin') or {})
+            if ('ok' in lref) != ('ok' in lp):
+                res['fails'].append(dict(tag, ob='api-constant-pipe-door-differs-on-acceptance', ref=str(lref.get('err'))[:160],
+                                         got=str(op.get('err'))[:200], point=None))
+            elif 'ok' in lref:
+                LA, LP = lref['ok'], lp['ok']
+                names = [n for n, _ in LA['vars'] if not n.startswith('$')]
+                if sorted(n for n, _ in LP['vars'] if not n.startswith('$')) != sorted(names):
+                    res['fails'].append(dict(tag, ob='api-constant-pipe-door-variable-set-differs', point=None))
+                else:
+                    bad = c10.equivalent(LA, LP, res, declared=names)
+                    if bad:
+                        res['fails'].append(dict(tag, ob='api-constant-pipe-door-model-differs', direction=bad[0], point=bad[1]))
             # the solving doors: same verdict and optimum as the reference text
             a, b = sol_summary(sref), sol_summary(os_)
             if a[0] != b[0] or (a[0] == 'ok' and abs(a[1] - b[1]) > 1e-6 * (1 + abs(a[1]))):
                 res['fails'].append(dict(tag, ob='api-constant-solver-door-differs', ref=str(a), got=str(b), point=None))
+            if 'ok' in lref:
+                p = sol_summary(op.get('solve') or op.get('err') or {})
+                if a[0] != p[0] or (a[0] == 'ok' and it['model']['obj']['dir'] != 'solve' and abs(a[1] - p[1]) > 1e-6 * (1 + abs(a[1]))):
+                    res['fails'].append(dict(tag, ob='api-constant-pipe-solver-door-differs', ref=str(a), got=str(p), point=None))
         results.append(res)
     return [{'results': results, 'stats': dict(zq.STATS)}]
 
